@@ -25,6 +25,8 @@ def check(ctx):
     ctx.note(f'slice: {len(fns)} functions, {sum(1 for f, v in ps.ctxs.items() if True in v)} with a persistent '
              f'receiver, {len(ps.prov.bind)} formals bound to persistent state')
     ps.check_escape(roots[0], position=0)
+    persist.check_memo_functions(ctx, [f for f in ctx.prog.all_functions()
+                                       if not f.module.name.startswith('adsg_core.examples')])
     invalidate.check_invalidation(ctx, GP)
     invalidate.check_cached_function_key(ctx)
     invalidate.check_unconditional_recompute(ctx, f'{GP}._update_comb_fixed_mask', '_comb_fixed_mask')
